@@ -110,6 +110,12 @@ class Verdict(object):
             seen += 1
         if len(self.violations) > seen:
             print('  ... and %d more' % (len(self.violations) - seen))
+        hist = {}
+        for x in self.violations:
+            k = ' '.join('%s=%s' % (a, x['key'][a]) for a in sorted(x['key']) if a != 'site')
+            hist[k] = hist.get(k, 0) + 1
+        for k, n in sorted(hist.items(), key=lambda kv: -kv[1])[:25]:
+            print('  SUMMARY %5d x %s' % (n, k))
         return 1
 
 
